@@ -1,5 +1,6 @@
-(* C11 driver.  case line: `src=<hex|-> pos=<n> awc=<0|1> pe=<0|1> bad=<n,n,..|-> fx=<4 digits hdr tgt prefix dangling>`
-   or `un=<hex|-> pe=<0|1> fx=<0|1>` (unescape alone) or `tr=<hex|->` (trim_end_unescaped alone).
+(* C11 driver.  case line: `src=<hex|-> pos=<n> awc=<0|1> pe=<0|1> iw=<0|1> bad=<n,n,..|-> fx=<5 digits hdr tgt prefix dangling iw>`
+   or `un=<hex|-> pe=<0|1> fx=<0|1> kw=<0|1>` (unescape alone; kw = white-space repair applied AND ignore_whitespace on)
+   or `tr=<hex|->` (trim_end_unescaped alone).
    result: the OK / ERRS section of harness/src/bin/c11.rs, or PANIC / FUEL. *)
 let bytes_of_hex (h : string) : int list =
   if h = "-" then [] else
@@ -42,7 +43,7 @@ let () =
   iter_lines (fun line ->
     let d = kv line in
     if List.mem_assoc "un" d then
-      show_out (unescape_gen (get d "fx" "0" = "1") (text_of_hex (get d "un" "-")) (get d "pe" "0" = "1"))
+      show_out (unescape_gen (get d "fx" "0" = "1") (get d "kw" "0" = "1") (text_of_hex (get d "un" "-")) (get d "pe" "0" = "1"))
     else if List.mem_assoc "tr" d then
       show_out (trim_end_unescaped (text_of_hex (get d "tr" "-")))
     else
@@ -50,10 +51,11 @@ let () =
     let pos = nat_of_int (int_of_string (get d "pos" "0")) in
     let bad = let b = get d "bad" "-" in
       if b = "-" then [] else List.map (fun x -> nat_of_int (int_of_string x)) (String.split_on_char ',' b) in
-    let f = get d "fx" "0000" in
+    let f = get d "fx" "00000" in
+    let f = if String.length f < 5 then f ^ String.make (5 - String.length f) '0' else f in
     let fx = { fix_header = f.[0] = '1'; fix_target_span = f.[1] = '1';
-               fix_prefix_unescape = f.[2] = '1'; fix_dangling = f.[3] = '1' } in
-    match lex_from_str fx src pos (get d "awc" "0" = "1") (get d "pe" "0" = "1") bad with
+               fix_prefix_unescape = f.[2] = '1'; fix_dangling = f.[3] = '1'; fix_iw = f.[4] = '1' } in
+    match lex_from_str fx src pos (get d "awc" "0" = "1") (get d "pe" "0" = "1") (get d "iw" "0" = "1") bad with
     | Panic -> "PANIC" | OutOfFuel -> "FUEL"
     | Done (PErrs errs) ->
       let b = Buffer.create 64 in
